@@ -1022,6 +1022,7 @@ func runC08(e *env) {
 			e.emit(strings.Split(l, "\t")...)
 		}
 	}
+	c08Parallel(e, 120*e.scale, "c08race", c08RaceCase)
 }
 
 // c08Parallel runs n cases on all cores and emits them in case order.
